@@ -337,6 +337,114 @@ def _check_views(child, parent, parent_names, flags, child_has_ddd, parent_has_d
                   sorted([o.short_name for o in child.diag_comms if isinstance(o, SingleEcuJob)])))
 
 
+# ----------------------------------------------------------------------------------- real raw layers, refreshed twice
+# Three layers PROTOCOL <- FUNCTIONAL-GROUP <- BASE-VARIANT built with the real raw-layer constructors, real PARENT-REFs
+# and an ODXLINK database; each layer goes through the library's own _resolve_odxlinks and _finalize_init (which ends in
+# _resolve_snrefs of the raw layer and its parent references) - twice, like Database.refresh() called again.  The base
+# variant may exclude a service that its parent only inherits.  What a layer offers is a function of the raw data: the
+# second refresh gives the same views as the first.
+from odxtools.diaglayers.basevariantraw import BaseVariantRaw  # noqa: E402
+from odxtools.diaglayers.functionalgroupraw import FunctionalGroupRaw  # noqa: E402
+from odxtools.diaglayers.protocolraw import ProtocolRaw  # noqa: E402
+from odxtools.odxlink import DocType, OdxDocFragment, OdxLinkDatabase, OdxLinkId, OdxLinkRef  # noqa: E402
+from odxtools.parentref import ParentRef  # noqa: E402
+
+LFR = [OdxDocFragment("dlc", DocType.CONTAINER)]
+
+
+def _raw(cls, name, kind, service_refs, gnrs, parent_refs, extra, comparam_refs=()):
+    return cls(odx_id=OdxLinkId(f"layer.{name}", LFR), oid=None, short_name=name, long_name=None, description=None,
+               variant_type=T[kind], admin_data=None, company_datas=NamedItemList(), functional_classes=NamedItemList(),
+               diag_data_dictionary_spec=None, diag_comms_raw=list(service_refs), requests=NamedItemList(),
+               positive_responses=NamedItemList(), negative_responses=NamedItemList(),
+               global_negative_responses=NamedItemList(gnrs), import_refs=[], state_charts=NamedItemList(),
+               additional_audiences=NamedItemList(), sub_components=NamedItemList(), libraries=NamedItemList(), sdgs=[],
+               comparam_refs=list(comparam_refs), parent_refs=list(parent_refs), **extra)
+
+
+class Gnr:
+    """a global negative response as inheritance sees it"""
+
+    def __init__(self, name):
+        self.short_name = name
+
+    def _resolve_odxlinks(self, odxlinks):
+        pass
+
+    def _resolve_snrefs(self, context):
+        pass
+
+
+def _pref(parent_name, not_inherited_services, not_inherited_gnrs):
+    return ParentRef(layer_ref=OdxLinkRef(f"layer.{parent_name}", LFR), not_inherited_diag_comms=list(not_inherited_services),
+                     not_inherited_variables=[], not_inherited_dops=[], not_inherited_tables=[],
+                     not_inherited_global_neg_responses=list(not_inherited_gnrs))
+
+
+@harness(props=["C09"], strength="B", family=lambda t, s: [{"rounds": 2}],
+         bound="a protocol, a functional group and a base variant in a chain; services and a global negative response "
+         "defined in the protocol and in the functional group; the base variant's NOT-INHERITED lists symbolic (an "
+         "object the parent defines itself / an object the parent only inherits); two refreshes",
+         functions=[HierarchyElement._finalize_init, HierarchyElement._compute_value_inheritance, DiagLayer._resolve_odxlinks,
+                    DiagLayer._resolve_snrefs, BaseVariantRaw._resolve_odxlinks, BaseVariantRaw._resolve_snrefs,
+                    FunctionalGroupRaw._resolve_odxlinks, ProtocolRaw._resolve_odxlinks, ParentRef._resolve_odxlinks,
+                    ParentRef._resolve_snrefs],
+         covers=["refreshed"])
+def real_raw_layers_through_two_refreshes(rounds):
+    """the services and global negative responses a layer offers after a refresh are those the ISO rule prescribes for
+    the raw data - for every layer of the chain, and again after a second refresh"""
+    db = OdxLinkDatabase()
+    svc = {}
+    for n in ("from_pr", "also_pr", "from_fg", "from_bv"):
+        o = _named(DiagService, n)
+        svc[n] = o
+        db.update({OdxLinkId(f"svc.{n}", LFR): o})
+    ref = {n: OdxLinkRef(f"svc.{n}", LFR) for n in svc}
+    excl_inherited = H.bool("base_variant_excludes_a_service_its_parent_only_inherits")
+    excl_local = H.bool("base_variant_excludes_a_service_its_parent_defines")
+    excl_gnr = H.bool("base_variant_excludes_the_inherited_global_negative_response")
+    pr_raw = _raw(ProtocolRaw, "pr", "PR", [ref["from_pr"], ref["also_pr"]], [Gnr("gnr_pr")], [],
+                  {"comparam_spec_ref": OdxLinkRef("cps", LFR), "prot_stack_snref": None})
+    fg_raw = _raw(FunctionalGroupRaw, "fg", "FG", [ref["from_fg"]], [], [_pref("pr", [], [])],
+                  {"diag_variables_raw": [], "variable_groups": NamedItemList()})
+    bv_raw = _raw(BaseVariantRaw, "bv", "BV", [ref["from_bv"]], [],
+                  [_pref("fg", (["from_pr"] if excl_inherited else []) + (["from_fg"] if excl_local else []),
+                         ["gnr_pr"] if excl_gnr else [])],
+                  {"diag_variables_raw": [], "variable_groups": NamedItemList(), "dyn_defined_spec": None,
+                   "base_variant_pattern": None})
+    layers = {}
+    for name, raw in (("pr", pr_raw), ("fg", fg_raw), ("bv", bv_raw)):
+        L = HierarchyElement.__new__(HierarchyElement)
+        L.diag_layer_raw = raw
+        DiagLayer.__post_init__(L)
+        layers[name] = L
+        db.update({raw.odx_id: L})
+    from odxtools.comparamspec import ComparamSpec
+    db.update({OdxLinkId("cps", LFR): _named(ComparamSpec, "cps")})
+    for r in range(rounds):
+        # (before the second refresh the protocol loses one of its services: the views follow the raw data)
+        pr_services = ["from_pr", "also_pr"] if r == 0 else ["from_pr"]
+        pr_raw.diag_comms_raw = [ref[n] for n in pr_services]
+        want = {
+            "pr": (pr_services, ["gnr_pr"]),
+            "fg": (pr_services + ["from_fg"], ["gnr_pr"]),
+            "bv": ([n for n in pr_services + ["from_fg"] if not ((n == "from_pr" and excl_inherited) or
+                                                                  (n == "from_fg" and excl_local))] + ["from_bv"],
+                   [] if excl_gnr else ["gnr_pr"]),
+        }
+        for name in ("pr", "fg", "bv"):
+            layers[name]._resolve_odxlinks(db)
+        for name in ("pr", "fg", "bv"):
+            layers[name]._finalize_init(None, db)
+        H.cover("refreshed")
+        for name in ("pr", "fg", "bv"):
+            L = layers[name]
+            H.check("C09:services-of-every-layer-are-those-the-rule-prescribes-after-every-refresh",
+                    sorted([x.short_name for x in L.diag_services]) == sorted(want[name][0]))
+            H.check("C09:global-negative-responses-of-every-layer-are-those-the-rule-prescribes-after-every-refresh",
+                    sorted([x.short_name for x in L.global_negative_responses]) == sorted(want[name][1]))
+
+
 # =============================================================================================================== C15
 import warnings  # noqa: E402
 
@@ -627,3 +735,35 @@ def complex_comparam_from_xml(order, values):
                 continue
             H.check("C15:sub-value-is-the-one-written-at-the-sub-parameters-position-else-its-default",
                     inst.get_subvalue(n) == want)
+
+
+
+# a layer may reference communication parameters of several comparam subsets; identical local ids in different subsets
+# name different specifications (the reference carries the document fragment)
+@harness(props=["C15"], strength="B", family=lambda t, s: [{"order": o} for o in ("can-first", "doip-first")],
+         bound="one real raw layer with two COMPARAM-REFs whose ids agree locally and differ in the document fragment",
+         functions=[BaseVariantRaw._resolve_odxlinks, ComparamInstance._resolve_odxlinks, ComparamInstance.get_value],
+         covers=["resolved"], crosscheck=False)
+def comparam_refs_resolve_per_document_fragment(order):
+    """every COMPARAM-REF of a layer is bound to the specification its own (id, document fragment) names, so omitted
+    values fall back to the default of that specification"""
+    f_can = [OdxDocFragment("ISO_11898_2_DWCAN", DocType.COMPARAM_SUBSET)]
+    f_doip = [OdxDocFragment("ISO_13400_2", DocType.COMPARAM_SUBSET)]
+    spec_can = mk_spec("CP_TesterPresentTime", "2000000")
+    spec_doip = mk_spec("CP_TesterPresentTime", "3000000")
+    db = OdxLinkDatabase()
+    db.update({OdxLinkId("CP_TesterPresentTime", f_can): spec_can, OdxLinkId("CP_TesterPresentTime", f_doip): spec_doip})
+    ci_can = ComparamInstance(value="", description=None, protocol_snref="CAN", prot_stack_snref=None,
+                              spec_ref=OdxLinkRef("CP_TesterPresentTime", f_can))
+    ci_doip = ComparamInstance(value="", description=None, protocol_snref="DoIP", prot_stack_snref=None,
+                               spec_ref=OdxLinkRef("CP_TesterPresentTime", f_doip))
+    refs = [ci_can, ci_doip] if order == "can-first" else [ci_doip, ci_can]
+    raw = _raw(BaseVariantRaw, "bv", "BV", [], [], [],
+               {"diag_variables_raw": [], "variable_groups": NamedItemList(), "dyn_defined_spec": None,
+                "base_variant_pattern": None}, comparam_refs=refs)
+    raw._resolve_odxlinks(db)
+    H.cover("resolved")
+    H.check("C15:each-comparam-ref-is-bound-to-the-specification-of-its-own-fragment",
+            H.And(ci_can.spec is spec_can, ci_doip.spec is spec_doip))
+    H.check("C15:omitted-values-fall-back-to-the-default-of-that-specification",
+            H.And(ci_can.get_value() == "2000000", ci_doip.get_value() == "3000000"))
